@@ -113,7 +113,7 @@ def presence_rules(rep, ctx, mod, cg, prefix=""):
             "has_path": ("ne", hdr_field("path"), 0),
             "symlink_ok": ("ne", ("call", "parse_symlink", [ANY]), 0),
         }
-        ps = PathStates(rd, F, tracked)
+        ps = PathStates(rd, F, tracked, correlate=True, cap=4096)
         # locate the presence test: the edges labelled has_name / has_path / symlink_ok that lie after the dispatch
         for v, pb, b in success_edges(F, rd):
             sts = ps.on_edge(pb, b) if pb is not None else ps.at_block(b)
@@ -186,22 +186,25 @@ def run(tier, seed):
         check_fold(rep, ctx, mod)
 
         # ---- R2: common CRC ---------------------------------------------------
-        rid = rep.rule("R2", "lha_file_header_read returns a header only across '(extra_flags & COMMON_CRC) == 0' or 'check_common_crc(header) != 0'")
+        rid = rep.rule("R2", "lha_file_header_read returns a header only across '(extra_flags & COMMON_CRC) == 0' or 'CRC-16 accumulator == header->common_crc'")
         rd = rep.need(rid, mod.fn("lha_file_header_read"), "function lha_file_header_read")
         if rd:
             F = ctx.facts(rd)
             flag_pat = ("ne", ("bin", "and", hdr_field("extra_flags"), COMMON_CRC_FLAG), 0)
             tracked = {
                 "flag": flag_pat,
-                "crc_ok": ("ne", ("call", "check_common_crc", [ANY]), 0),
+                # the comparison itself (the helper that wraps it, if any, is folded into this function by the normalised view);
+                # what the accumulator holds is checked under R2c for every instance that is relied on
+                "crc_ok": ("eq", ("load", ("bind", "acc")), hdr_field("common_crc")),
+                "crc_ok_": ("eq", hdr_field("common_crc"), ("load", ("bind", "acc"))),
             }
-            ps = PathStates(rd, F, tracked)
+            ps = PathStates(rd, F, tracked, correlate=True, cap=4096)
             ses = success_edges(F, rd)
             if not ses:
                 rep.broken(rid, "lha_file_header_read has no non-NULL return")
             for v, pb, b in ses:
                 sts = ps.on_edge(pb, b) if pb is not None else ps.at_block(b)
-                bad = [s for s in sts if not (refuted(s, "flag") or holds(s, "crc_ok"))]
+                bad = [s for s in sts if not (refuted(s, "flag") or holds(s, "crc_ok") or holds(s, "crc_ok_"))]
                 rep.check(rid, not bad and bool(sts), "lha_file_header_read: non-NULL return via bb%s" % pb,
                           "%s:%s" % (rd.file, rd.blocks[pb if pb is not None else b].term.line()),
                           "path states at return: %s" % show(sts) if not bad else
@@ -209,7 +212,7 @@ def run(tier, seed):
                           function=rd.cname, obj="common_crc")
             # R2b: nothing after the flag test can set the flag or change the bytes/CRC compared
             rid2 = rep.rule("R2b", "after the common-CRC test nothing on the way to the successful return writes extra_flags' CRC bit, common_crc, raw_data or raw_data_len")
-            test_edges = ps.labelled_edges({"flag", "crc_ok"})
+            test_edges = ps.labelled_edges({"flag", "crc_ok", "crc_ok_"})
             after = blocks_reachable_from(rd, [s for _, s in test_edges])
             writers = {}
             for fld in ("common_crc", "raw_data", "raw_data_len"):
@@ -241,52 +244,57 @@ def run(tier, seed):
             if not test_edges:
                 rep.broken(rid2, "no common-CRC test edge found")
 
-        # check_common_crc itself
-        rid = rep.rule("R2c", "check_common_crc compares, at full 16-bit width, lha_crc16_buf over (raw_data, raw_data_len) from 0 with common_crc")
-        cc = rep.need(rid, mod.fn("check_common_crc"), "function check_common_crc")
-        if cc:
-            M = Matcher(cc)
-            r = rets(cc)
-            ok, detail = False, "shape not recognised"
-            if len(r) == 1:
-                v = M.strip(r[0].ops[0], ("zext", "sext"))
-                d = cc.defn(v)
-                if d is not None and not d.is_param and d.op == "icmp" and d.pred == "eq":
-                    for a, b in ((d.ops[0], d.ops[1]), (d.ops[1], d.ops[0])):
-                        wa, oa = min_width_through_casts(cc, a)
-                        wb, ob = min_width_through_casts(cc, b)
-                        ea = M.match(("load", ("bind", "acc")), oa, {})
-                        eb = M.match(("load", ("field", HDR, "common_crc", ("param", 0))), ob, {})
-                        if ea is None or eb is None:
-                            continue
-                        if wa != 16 or wb != 16:
-                            detail = "comparison is narrower than 16 bits (%s/%s)" % (wa, wb)
-                            continue
-                        acc = cc.defn(ea["acc"])
-                        if acc is None or acc.is_param or acc.op != "alloca":
-                            detail = "CRC accumulator is not a local"
-                            continue
-                        calls = [c for c in cc.calls("lha_crc16_buf")]
-                        good = [c for c in calls if M.match(("inst", acc.id), c.ops[0], {}) is not None and
-                                M.match(("load", ("field", HDR, "raw_data", ("param", 0))), c.ops[1], {}) is not None and
-                                M.match(("load", ("field", HDR, "raw_data_len", ("param", 0))), c.ops[2], {}) is not None]
-                        sts = [s for s in cc.insts() if s.op == "store" and M.strip(s.ops[1], ("bitcast",)) == ("v", acc.id)]
-                        if len(calls) != 1 or len(good) != 1:
-                            detail = "lha_crc16_buf is not called exactly once over (header->raw_data, header->raw_data_len)"
-                            continue
-                        if len(sts) != 1 or const_val(sts[0].ops[0]) != 0 or not (
-                                sts[0].block.id == good[0].block.id and sts[0].idx < good[0].idx or
-                                cc.dominates(sts[0].block.id, good[0].block.id) and sts[0].block.id != good[0].block.id):
-                            detail = "accumulator is not initialised to 0 before the call"
-                            continue
-                        # other uses of the accumulator address: only that call, that store, that load
-                        others = [u for u in cc.users(acc.id) if u not in (good[0], sts[0]) and u.id != cc.defn(oa).id
-                                  and not (u.op == "bitcast" and not cc.users(u.id))]
+        # the accumulator compared with common_crc
+        rid = rep.rule("R2c", "the value compared with common_crc, at full 16-bit width, is a local accumulator set to 0 and then run through lha_crc16_buf over "
+                              "(header->raw_data, header->raw_data_len), with no other writer")
+        if rd:
+            M = Matcher(rd)
+            F = ctx.facts(rd)
+            cmps = []
+            for blk in rd.blocks:
+                for s_ in blk.succs:
+                    for f in F.edge_facts(blk.id, s_):
+                        for x, y in ((f[1], f[2]), (f[2], f[1])):
+                            if f[0] == "eq" and not is_const(x) and not is_const(y) and M.match(hdr_field("common_crc"), y, {}) is not None and M.match(("load", ANY), x, {}) is not None:
+                                cmps.append((f, x, y, blk))
+            seen = set()
+            if not cmps:
+                rep.broken(rid, "no comparison with header->common_crc found in lha_file_header_read")
+            for f, x, y, blk in cmps:
+                key = (M.strip(x), M.strip(y))
+                if key in seen:
+                    continue
+                seen.add(key)
+                ok, detail = False, "shape not recognised"
+                wa, oa = min_width_through_casts(rd, x)
+                wb, ob = min_width_through_casts(rd, y)
+                ld = rd.defn(oa)
+                acc = rd.defn(M.strip(ld.ops[0], ("bitcast",))) if ld is not None and not ld.is_param and ld.op == "load" else None
+                if wa != 16 or wb != 16:
+                    detail = "comparison is narrower than 16 bits (%s/%s)" % (wa, wb)
+                elif acc is None or acc.is_param or acc.op != "alloca":
+                    detail = "CRC accumulator is not a local"
+                else:
+                    calls = [c for c in rd.calls("lha_crc16_buf") if M.match(("inst", acc.id), c.ops[0], {}) is not None]
+                    good = [c for c in calls if M.match(hdr_field("raw_data"), c.ops[1], {}) is not None and M.match(hdr_field("raw_data_len"), c.ops[2], {}) is not None]
+                    sts = [s2 for s2 in rd.insts() if s2.op == "store" and M.strip(s2.ops[1], ("bitcast",)) == ("v", acc.id)]
+
+                    def before(a_, b_):
+                        return (a_.block.id == b_.block.id and a_.idx < b_.idx) or (a_.block.id != b_.block.id and rd.dominates(a_.block.id, b_.block.id))
+                    if len(calls) != 1 or len(good) != 1:
+                        detail = "lha_crc16_buf is not called exactly once on this accumulator over (header->raw_data, header->raw_data_len)"
+                    elif not before(good[0], ld):
+                        detail = "the checksum call does not dominate the comparison"
+                    elif len(sts) != 1 or not is_const(sts[0].ops[0]) or const_val(sts[0].ops[0]) != 0 or not before(sts[0], good[0]):
+                        detail = "accumulator is not initialised to 0 before the call"
+                    else:
+                        others = [u for u in rd.users(acc.id) if u not in (good[0], sts[0]) and u.id != ld.id and not (u.op == "bitcast" and all(
+                            (w.op == "call" and (w.callee or "").startswith("llvm.lifetime")) for w in rd.users(u.id)))]
                         if others:
-                            detail = "accumulator escapes: %s" % others
-                            continue
-                        ok, detail = True, "crc(raw_data[0..raw_data_len)) from 0, compared == common_crc at i16"
-            rep.check(rid, ok, "check_common_crc shape", "%s:%s" % (cc.file, cc.line), detail, function=cc.cname, obj="compare")
+                            detail = "accumulator has other users: %s" % [o.where() for o in others][:3]
+                        else:
+                            ok, detail = True, "crc(raw_data[0..raw_data_len)) from 0, compared == common_crc at i16"
+                rep.check(rid, ok, "common-CRC comparison shape", "%s:%s" % (rd.file, blk.term.line()), detail, function=rd.cname, obj="compare")
 
         # ext_header_common_decoder: sets the flag, stores the decoded word, zeroes the two bytes
         rid = rep.rule("R2d", "the common extended header decoder sets the COMMON_CRC flag, stores the 16-bit word at data[0..1] and zeroes those bytes", 4)
@@ -491,7 +499,7 @@ def run(tier, seed):
                 if e is not None:
                     guarded_site(rep, rid, ctx, s, [
                         ("compressed_length >= ext_header_len", ("uge", hdr_field("compressed_length", HP), ("inst", e["len"][1]))),
-                        ("read_next_ext_header(...) != 0", ("ne", ("call", "read_next_ext_header", [("param", 0), ("param", 1), ANY, ANY]), 0)),
+                        ("extend_raw_data(header, stream, ext_header_len) != NULL", ("ne", ("call", "extend_raw_data", [("param", 0), ("param", 1), ("inst", e["len"][1])]), 0)),
                     ])
                     # the loop continues (back edge) only if ext_len >= 3
                     for lp in r1.loops():
